@@ -18,7 +18,7 @@ ATOMS = [None, True, False, 0, 1, -1, 2, 3, 1.0, 1.5, 0.5, "", "a", "b", "ab", "
 ATOMS_T = ATOMS + ["é", "\U0001F600", "aab", 2.0, -0.0, 10, 0.25]
 
 EXTRA = [
-    {"a": {"a": 0}}, {"a": [0, "a"]}, [[0], [0]], [[1], [1.0]],
+    {"ba": 0, "ab": "a"}, {"a": {"a": 0}}, {"a": [0, "a"]}, [[0], [0]], [[1], [1.0]],
     [{"a": 1}, {"a": 1.0}], {"aa": 0, "bc": 1}, [0, 1, 2], ["a", "a", "b"],
     [0, [0, "a"]], {"a": {"b": "a"}, "b": 1}, [{"a": 0}], [["a"]],
 ]
@@ -61,9 +61,16 @@ def universe_pairs_quick():
     u += list(arrays([0, 1, "a"], 2))
     u += [[True], [[]], [0, []], [{}]]
     u += list(objects([(), ("a",), ("b",), ("a", "b"), ("b", "ab")], [0, "a"]))
-    u += [{"a": 1, "b": 1}, {"a": {"a": 0}}, {"a": [0, "a"]}, [[0], [0]], {"aa": 0, "bc": 1},
+    u += [{"ba": 0, "ab": "a"}, {"a": 1, "b": 1}, {"a": {"a": 0}}, {"a": [0, "a"]}, [[0], [0]], {"aa": 0, "bc": 1},
           [0, 1, 2], ["a", "a", "b"], [{"a": 0}]]
     return dedup(u)
+
+
+def universe_small():
+    """~25 instances: every JSON type, most of them with several violations available."""
+    return [None, True, 0, 1, 1.5, -1, "", "a", "ab", "aa", [], [0], [0, "a"], ["a", "a"], [1, 1.0],
+            [0, 1, 2], [[0], [0]], {}, {"a": 0}, {"b": "a"}, {"a": "a", "b": 0}, {"b": 0, "ab": 0},
+            {"aa": 0, "bc": 1}, {"a": {"a": 0}}, {"a": [0, "a"]}, {"ba": 0, "ab": "a"}]
 
 
 def universe_distinct_leaves():
